@@ -13,6 +13,10 @@ impl StateMachine<'_> {
         if !self.test_submodule_log() {
             return Ok(false);
         }
+        // There is no `diff` line before a submodule log section: the header of the previous
+        // file may still be pending (mode change, binary file, empty file).
+        self.painter.paint_buffered_minus_and_plus_lines();
+        self.handle_pending_line_with_diff_name()?;
         self.handle_additional_cases(State::SubmoduleLog)
     }
 
